@@ -345,6 +345,90 @@ def question_marks_outside_closures(body):
     return any(ch == '?' and not any(a <= i < b for a, b in spans) for i, ch in enumerate(mb))
 
 
+_cps_counter = [0]
+
+
+def cps_closure_try(body):
+    """Make the `?` of a closure body explicit WITHOUT changing what it returns from: in a closure `E?` means
+    `match E { Ok(v) => v, Err(e) => return Err(From::from(e)) }` with `return` leaving the CLOSURE.  Once the closure is
+    inlined into a `match` arm a plain `?` would leave the function instead, so the block is rewritten in
+    continuation style:   { s1; let x = f(E?); rest }   ->   { s1; match E { Err(e_) => Err(e_), Ok(q_) => { let x = f(q_); rest } } }
+    (`From::from` on the error is the identity here: if the error types differed the generated file would not type-check
+    and the unit is undecided).  Only straight-line blocks are handled; a `?` under a nested block is refused."""
+    from rsrc import find_closures
+    text = body.strip()
+    if not question_marks_outside_closures(text):
+        return text
+    if not (text.startswith('{') and text.endswith('}')):
+        text = '{ ' + text + ' }'
+    inner = text[1:-1]
+    m = mask(inner)
+    spans = [(c[0], c[3]) for c in find_closures(m)]
+    # split into statements at top-level `;`
+    pieces, depth, last = [], 0, 0
+    for i, ch in enumerate(m):
+        if ch in '([{':
+            depth += 1
+        elif ch in ')]}':
+            depth -= 1
+        elif ch == ';' and depth == 0:
+            pieces.append((last, i))
+            last = i + 1
+    pieces.append((last, len(inner)))
+    for idx, (a, b) in enumerate(pieces):
+        st, ms = inner[a:b], m[a:b]
+        q = next((i for i, ch in enumerate(ms) if ch == '?' and not any(x <= a + i < y for x, y in spans)), None)
+        if q is None:
+            continue
+        # the `?` must not sit under a nested block of this statement
+        depth_b = 0
+        for ch in ms[:q]:
+            depth_b += ch == '{'
+            depth_b -= ch == '}'
+        if depth_b != 0:
+            raise UnitError('closure-level `?` inside a nested block: not desugared')
+        i = receiver_start(ms, q)
+        prefix, recv = st[:i + 1], st[i + 1:q]
+        if ')' in mask(prefix):
+            raise UnitError('closure-level `?` after another call in the same statement: evaluation order would change')
+        _cps_counter[0] += 1
+        v = 'q%d_' % _cps_counter[0]
+        before = inner[:a]
+        rest = prefix + v + st[q + 1:] + inner[b:]
+        return '{ %s match %s { Err(e_) => Err(e_), Ok(%s) => %s } }' % (before, recv.strip(), v, cps_closure_try('{' + rest + '}'))
+    return text
+
+
+def desugar_option_or_else(text):
+    """R.or_else(|| B) -> (match R { Some(v_) => Some(v_), None => B });  R.unwrap_or_else(|| B) -> (match R { Some(v_) => v_,
+    None => B })  — the definitions of Option::or_else / Option::unwrap_or_else; only for parameterless closures that
+    mention `self`."""
+    from rsrc import find_closures, match_close
+    n, start = 0, 0
+    while True:
+        m = mask(text)
+        mm = re.search(r'\.(or_else|unwrap_or_else)\(\s*\|\|', m[start:])
+        if not mm:
+            return text, n
+        k = start + mm.start()
+        op = k + len('.' + mm.group(1))
+        cl = match_close(m, op)
+        args = text[op + 1:cl]
+        cls = find_closures(mask(args))
+        if not cls or cls[0][0] != len(args) - len(args.lstrip()) or cls[0][3] < len(args.rstrip()) or 'self' not in args:
+            start = op
+            continue
+        s1, p1, b1, e1 = cls[0]
+        body = cps_closure_try(args[b1:e1])
+        i = receiver_start(m, k)
+        recv = text[i + 1:k].strip()
+        some = 'Some(v_)' if mm.group(1) == 'or_else' else 'v_'
+        new = '(match %s { Some(v_) => %s, None => %s })' % (recv, some, body)
+        text = text[:i + 1] + new + text[cl + 1:]
+        n += 1
+        start = i + 1
+
+
 def desugar_option_map(text, mode='asref'):
     """X.as_ref().map(|p| B)  ->  (match X.as_ref() { None => None, Some(p) => Some(B) })  — definition of Option::map;
     applied only when the closure body mentions `self` (Verus rejects closures capturing `&mut self`).
@@ -375,11 +459,8 @@ def desugar_option_map(text, mode='asref'):
         is_and_then = 'and_then' in m[k:op]
         param = args[s1 + 1:p1].strip()
         body = args[b1:e1].strip()
-        # a `?` in the closure body returns from the closure; in the `match` it returns from the function.  The two
-        # agree exactly when the closure's Err is propagated unchanged: `.map(|p| { ..? .. }).transpose()?`
-        inner_q = question_marks_outside_closures(body)
-        if inner_q and not (mode != 'res' and not is_and_then and re.match(r'\s*\.transpose\(\)\?', m[cl + 1:])):
-            raise UnitError('Option::map desugaring: closure body uses `?` but is not followed by .transpose()?')
+        # a `?` in the closure body returns from the closure: make that explicit before inlining the body
+        body = cps_closure_try(body)
         if mode == 'res':
             new = '(match %s { Err(e) => Err(e), Ok(%s) => %s })' % (recv, param, body if is_and_then else 'Ok(%s)' % body)
         else:
@@ -402,7 +483,11 @@ def apply_rw(text, rws, where, lost=None):
             n_applied += n + n2
             continue
         if pat in ('@optmap', '@resmap'):
+            n0 = 0
+            if pat == '@optmap':
+                text, n0 = desugar_option_or_else(text)
             text, n = desugar_option_map(text, 'opt' if pat == '@optmap' else 'res')
+            n += n0
             if n == 0 and required:
                 raise LostAnchor('%s: builtin %s matches nothing' % (where, pat))
             n_applied += n
